@@ -38,6 +38,21 @@ CLAIMED["C09"] = (
     "(partial: numeric kinds + writer proved; the rest is covered by the C01/C03 correspondence).",
     "DESIGN.md C09")
 
+CLAIMED["C01"] = (
+    "Rocq/Coq round-trip theorems for the Part 21 parameter syntax, integer and string literals; generated "
+    "populations through the real reader/writer judged by an independent Part 21 parser",
+    "Coq theorems (coq/Properties_C01.v, axiom-free): for every value (any nesting of aggregates and typed SELECT "
+    "values, `$`, `*`) the reader's parameter grammar inverts the writer's layout, writing is idempotent through a "
+    "read, every 64-bit INTEGER is written as a numeral ReadInteger reads back, a STRING with doubled quotes is "
+    "scanned back byte for byte by the GetLiteralStr model. The whole-file reader/writer is NOT modelled: it is "
+    "exercised on generated conforming populations of schemas/verif_all.exp (all kinds, selects, nested aggregates, "
+    "multiple inheritance, complex instances, forward refs, random layouts) read-written-reread-rewritten and judged "
+    "by an independent parser (ids, order, types, every value, header, byte idempotence).",
+    "Proof level applies to the syntax core only; the file level is differential testing (partial). Trusted: "
+    "tools/p21tok.py, tools/popgen.py, harness/h_file.cc, one fixed schema in the quick tier. Open findings: "
+    "comments in four positions (known_findings.jsonl).",
+    "DESIGN.md C01")
+
 NOT_APPLICABLE = {}
 
 ALL = ["C%02d" % i for i in range(1, 21)]
